@@ -4,6 +4,7 @@ from props.common import *
 import io, os, tempfile, hashlib
 
 ID = 'C17'
+ESCALATE_SKIP_OPS = ('bigfile',)   # 100 MiB: thorough tier only
 COQ_PROPS = ['Props/C17.v']
 COQ_IMPORTS = ['Prims', 'CaseLib', 'BitsCore', 'Search', 'Store']
 RULE = ('all lengths 0..7 mod 8 x classes for tobytes/bytes()/.bytes/tofile; all (offset, length) windows incl. None over small byte sources (exhaustive for sources of 0..3 bytes) through '
